@@ -135,11 +135,16 @@ def worker(ob):
                 ys = [z3.Real(f"y{j}") for j in range(n)]
                 cell = Cell(new_spline(m, S, "F64", k, t))
                 csolve(m, S, "F64", cell, tau, [F(y) for y in ys], ln, rn)
-                g, h = z3.Real("g"), z3.Real("h")
+                # the abscissa carries TWO variables with independent first-order coefficients and a full symmetric second-order block
+                gs = [z3.Real("g0"), z3.Real("g1")]
+                hh = {(0, 0): z3.Real("h00"), (0, 1): z3.Real("h01"), (1, 1): z3.Real("h11")}
+                hh[(1, 0)] = hh[(0, 1)]
+                VN = ["v8", "v9"]
+                info.update(ty="F64", ys=ys, abscissa=(gs, hh))
                 s0, s1, s2 = (ev(m, S, "F64", cell, F(x), mm).fields[0] for mm in (0, 1, 2))
-                arc = m.new_arc(SetV([Str("v9")]))
-                xd = Struct("Dual", [dict(real=F(x), vars=arc, dual=Nd((1,), [F(g)]))[f] for f in S.structs["Dual"]])
-                xd2 = Struct("Dual2", [dict(real=F(x), vars=arc, dual=Nd((1,), [F(g)]), dual2=Nd((1, 1), [F(h)]))[f] for f in S.structs["Dual2"]])
+                arc = m.new_arc(SetV([Str(v) for v in VN]))
+                xd = Struct("Dual", [dict(real=F(x), vars=arc, dual=Nd((2,), [F(g) for g in gs]))[f] for f in S.structs["Dual"]])
+                xd2 = Struct("Dual2", [dict(real=F(x), vars=arc, dual=Nd((2,), [F(g) for g in gs]), dual2=Nd((2, 2), [F(hh[(a, b)]) for a in range(2) for b in range(2)]))[f] for f in S.structs["Dual2"]])
                 r1 = m.call_text("PPSpline::<f64>::ppdnev_single_dual", [Ref(cell, (), False), m.temp_ref(xd), 0], [parse_type("&PPSpline<f64>"), parse_type("&Dual"), parse_type("usize")], parse_type("Result<Dual, PyErr>"))
                 r2 = m.call_text("PPSpline::<f64>::ppdnev_single_dual2", [Ref(cell, (), False), m.temp_ref(xd2), 0], [parse_type("&PPSpline<f64>"), parse_type("&Dual2"), parse_type("usize")], parse_type("Result<Dual2, PyErr>"))
                 props.append(("Ok", r1.variant == "Ok" and r2.variant == "Ok"))
@@ -147,11 +152,14 @@ def worker(ob):
                     d1, d2 = r1.fields[0], r2.fields[0]
                     Mu = lambda a, b: fr_bin("mul", a, b)
                     props.append(("dual abscissa: value s(x)", fr_eq(parts(S, d1)["real"], s0)))
-                    props.append(("dual abscissa: sensitivity s'(x) g", fr_eq(str_coef1(S, d1, "v9"), Mu(s1, F(g)))))
                     props.append(("dual2 abscissa: value", fr_eq(parts(S, d2)["real"], s0)))
-                    props.append(("dual2 abscissa: first order s'(x) g", fr_eq(str_coef1(S, d2, "v9"), Mu(s1, F(g)))))
-                    props.append(("dual2 abscissa: second order s''(x) g^2 + s'(x) 2h", fr_eq(str_coef2(S, d2, "v9", "v9"), fr_bin("add", Mu(s2, Mu(F(g), F(g))), Mu(s1, F(2 * h))))))
-                info.update(ty="F64", ys=ys, abscissa=(g, h))
+                    props.append(("dual / dual2 abscissa: result shape", shape_ok(S, d1) and shape_ok(S, d2)))
+                    for a in range(2):
+                        props.append((f"dual abscissa: sensitivity s'(x) g_{a}", fr_eq(str_coef1(S, d1, VN[a]), Mu(s1, F(gs[a])))))
+                        props.append((f"dual2 abscissa: first order s'(x) g_{a}", fr_eq(str_coef1(S, d2, VN[a]), Mu(s1, F(gs[a])))))
+                        for b in range(2):
+                            props.append((f"dual2 abscissa: second order ({a},{b}) = s''(x) g_{a} g_{b} + s'(x) 2 h_{a}{b}",
+                                          fr_eq(str_coef2(S, d2, VN[a], VN[b]), fr_bin("add", Mu(s2, Mu(F(gs[a]), F(gs[b]))), Mu(s1, F(2 * hh[(a, b)]))))))
             elif what == "table":
                 sp, ab = ob["sp"], ob["ab"]
                 ys = [z3.Real(f"y{j}") for j in range(n)]
@@ -260,9 +268,11 @@ def worker(ob):
             if info.get("evals"):
                 s["evals"] = [{"x": {"kind": "F64", "f64": float(xx)}, "m": mm} for xx, mm in info["evals"]]
             elif info.get("abscissa"):
-                gv, hv = float(mval(model, info["abscissa"][0])), float(mval(model, info["abscissa"][1]))
+                gv = [float(mval(model, g_)) for g_ in info["abscissa"][0]]
+                hv = [[float(mval(model, info["abscissa"][1][(a, b)])) for b in range(2)] for a in range(2)]
                 s["evals"] = [{"x": {"kind": "F64", "f64": xv}, "m": 0}, {"x": {"kind": "F64", "f64": xv}, "m": 1}, {"x": {"kind": "F64", "f64": xv}, "m": 2},
-                              {"x": {"kind": "Dual", "real": xv, "vars": [9], "dual": [gv]}, "m": 0}, {"x": {"kind": "Dual2", "real": xv, "vars": [9], "dual": [gv], "dual2": [hv]}, "m": 0}]
+                              {"x": {"kind": "Dual", "real": xv, "vars": [8, 9], "dual": gv}, "m": 0},
+                              {"x": {"kind": "Dual2", "real": xv, "vars": [8, 9], "dual": gv, "dual2": [hv[0][0], hv[0][1], hv[1][0], hv[1][1]]}, "m": 0}]
             elif info.get("table"):
                 ab = info["table"][1]
                 xj = {"kind": "F64", "f64": xv} if ab == "F64" else {"kind": ab, "real": xv, "vars": [9], "dual": [1.0], "dual2": [0.0]}
@@ -281,7 +291,13 @@ def worker(ob):
                 elif info.get("abscissa"):
                     s0, s1, s2 = (o["evals"][q]["real"] for q in range(3))
                     d1, d2 = o["evals"][3], o["evals"][4]
-                    if not close(jc1(d1, "v9"), s1 * gv, 1e-8) or not close(jc1(d2, "v9"), s1 * gv, 1e-8) or not close(jc2(d2, "v9", "v9"), s2 * gv * gv + s1 * 2 * hv, 1e-8) or not close(d1["real"], s0) or not close(d2["real"], s0):
+                    VN = ["v8", "v9"]
+                    bad = not close(d1["real"], s0) or not close(d2["real"], s0)
+                    for a in range(2):
+                        bad = bad or not close(jc1(d1, VN[a]), s1 * gv[a], 1e-8) or not close(jc1(d2, VN[a]), s1 * gv[a], 1e-8)
+                        for b in range(2):
+                            bad = bad or not close(jc2(d2, VN[a], VN[b]), s2 * gv[a] * gv[b] + s1 * 2 * hv[a][b], 1e-8)
+                    if bad:
                         out["mismatch"].append(f"{prof}: dual abscissa: s={s0} s'={s1} s''={s2} g={gv} h={hv} native dual={d1} dual2={d2}")
                 elif info.get("table"):
                     sp_, ab_ = info["table"]
@@ -311,7 +327,7 @@ def run(tier, seed):
         tot["undecided"].append(f"panic leaves: {tot['panics'][:3]}")
     standard_finish(PID, ev_, obs, results, tot, lambda f: {"site": f.get("ob", "").split(":")[-1].strip()},
                     bounds={"layouts": [L["name"] for L in layouts(tier)], "data": "symbolic real data values / symbolic polynomial coefficients (degree < k) / Dual and Dual2 data with one variable per datum",
-                            "x": "symbolic evaluation point over the whole domain (all spans, knots, both ends)", "types": "3x3 spline-type x abscissa-type table incl. the two refusing combinations", "errors": "site-count mismatches, evaluation before solving",
+                            "x": "symbolic evaluation point over the whole domain (all spans, knots, both ends); Dual / Dual2 abscissas carry two variables with symbolic first-order coefficients and a symbolic symmetric second-order block", "types": "3x3 spline-type x abscissa-type table incl. the two refusing combinations", "errors": "site-count mismatches, evaluation before solving",
                             "outside": "symbolic knots or sites; k = 6"},
                     rule="obligation = (layout, aspect); paths = position of x relative to the knots; one validity query per path (linear in the data, polynomial in x)",
                     assumptions=["reals", "concrete layouts make the collocation matrix and its pivoting concrete (the solver itself is C13)"])
